@@ -418,3 +418,37 @@ Proof.
   split; [repeat constructor; try (exists 1; reflexivity); exists 0; reflexivity|].
   split; [vm_compute; reflexivity|]. split; [vm_compute; reflexivity|]. repeat split; vm_compute; reflexivity.
 Qed.
+
+(* --- the hypothesis wf: what breaks it, what restores it, and why it is needed ------------------------------- *)
+(* a successful resize always ends with every file at its recorded, block-aligned size -- from ANY state *)
+Lemma chsize_reestablishes_wf : forall k g ps size ps', chsize_data g (2^k) ps size = Ok ps' -> wf (2^k) ps'.
+Proof.
+  intros k g ps size ps' H. unfold chsize_data, chsize in H.
+  destruct (chsize_loop g (2^k) 0 (map to_h ps) size) as [[hs' rem]|e] eqn:E; [|discriminate].
+  destruct (N.eqb_spec rem 0) as [->|]; [|discriminate]. injection H as <-.
+  destruct (chsize_loop_sum k g _ _ _ _ _ E) as [L [_ [F _]]]. rewrite map_length in L.
+  apply (apply_sizes_wf (2^k) ps hs' L F).
+Qed.
+
+(* parity_truncate (after fix) cuts a file to its valid size, which growth does not raise: wf is lost *)
+Lemma truncate_breaks_wf :
+  exists ps, wf (2^2) ps /\ ~ wf (2^2) (parity_truncate ps).
+Proof.
+  exists [ {| p_size := 4; p_valid := 0; p_file := [0; 0; 0; 0] |} ]. split.
+  - repeat constructor. exists 1. reflexivity.
+  - intros W. inversion W as [|? ? [Hl _] _]; subst. vm_compute in Hl. discriminate.
+Qed.
+
+(* without wf the refinement statement is false: split 0 was cut to 8 of its 16 recorded bytes and can no longer
+   grow beyond 8; a resize to 16 accepts it shorter and lays the rest out in split 1, whose old bytes then sit at
+   positions that read as zeros before *)
+Lemma split_concat_needs_wf :
+  exists k g ps size ps', chsize_data g (2^k) ps size = Ok ps' /\
+    concat_view ps' <> resize (concat_view ps) size.
+Proof.
+  exists 2, (limits_oracle [8; 14; 9]),
+    [ {| p_size := 16; p_valid := 8; p_file := [0; 0; 0; 0; 59; 60; 61; 62] |};
+      {| p_size := 4; p_valid := 4; p_file := [91; 92; 93; 94] |};
+      {| p_size := 0; p_valid := 0; p_file := [] |} ], 16.
+  eexists. split; [vm_compute; reflexivity|]. vm_compute. discriminate.
+Qed.
